@@ -104,6 +104,11 @@ class EstObj(SV):
     def pvc_subst(self, pairs):
         return EstObj(z3.substitute(self.term, *pairs), self.data.shape_, self.key)
 
+    def pvc_merge(self, c, other):
+        if isinstance(other, EstObj) and other.term.sort() == self.term.sort():
+            return EstObj(z3.If(c, self.term, other.term), self.data.shape_, self.key)
+        return NotImplemented
+
 
 class Recorded(SV):
     """filter.innovations / filter.sensor_prediction_uncertainty: last recorded value per key."""
@@ -236,6 +241,16 @@ class CompileEkfStub(Contract):
         return W.filter
 
 
+class ClampStub(Contract):
+    """nearest_positive_definite as seen from transform (its own contract: C17): the result is a NEW mapping whose values may
+    differ from the argument's - it is not the estimator's parameter."""
+
+    key = "formak.python:nearest_positive_definite"
+
+    def apply(self, I, args, kwargs):
+        return SObj("ClampedNoise", {"of": args[0]}, "clamped")
+
+
 class GateStub(Contract):
     """The exported filter returns valid covariances (C04/C05/C09): the gate does not fire inside transform."""
 
@@ -257,7 +272,13 @@ class Transform(Contract):
     prefix = "C16.py.transform"
     inline = ("formak.python:force_to_ndarray",)
 
-    def __init__(self):
+    def __init__(self, include_states=False):
+        # include_states (optional, off by default; mahalanobis turns it on): the same NIS array comes first, then the estimates after
+        # 0..n rows (the initial estimate and one per row)
+        self.include_states = include_states
+        if include_states:
+            self.prefix = "C16.py.transform[include_states]"
+
         def inv(I, kk, env, call):
             W = call.W
             kz = to_int(kk)
@@ -271,6 +292,21 @@ class Transform(Contract):
 
             innseq = as_seq2(inn) if not isinstance(inn, SSeq) else inn
             out.append(("rows_so_far", innseq.len_z() == kz))
+            # the estimates kept for include_states: the initial one and one per finished row
+            for nm, spec in (("states", W.run_x), ("covariances", W.run_P)):
+                kept = env.get(nm)
+                if kept is None:
+                    continue
+                kseq = as_seq2(kept) if not isinstance(kept, SSeq) else kept
+                out.append((f"{nm}_kept_so_far", kseq.len_z() == kz + 1))
+                if isinstance(kept, PyList):
+                    vals_ok = [v.term == spec(z3.IntVal(q)) for q, v in enumerate(kept.items) if isinstance(v, EstObj)]
+                    out.append((f"{nm}_kept_values", z3.And(*vals_ok) if len(vals_ok) == len(kept.items) else z3.BoolVal(False)))
+                else:
+                    q = z3.Int("kept_any")
+                    el = kseq.at(q)
+                    I.path.define(W.unfold(q - 1), "run unfolding (recursive spec function)")
+                    out.append((f"{nm}_kept_values", z3.Implies(z3.And(q >= 0, q <= kz), el.term == spec(q)) if isinstance(el, EstObj) else z3.BoolVal(False)))
             if isinstance(inn, PyList) and not inn.items:
                 return out
             rowv = innseq.at(j)
@@ -327,14 +363,14 @@ class Transform(Contract):
         P.ghost["world"] = W
         P.ghost["site"] = self.prefix
         W.adapter = SObj(adapter_class(I), {k: SObj("Val", {}, k) for k in ALLOWED}, "adapter")
-        for c in (FilterPM(), FilterSM(), FilterMakeReading(), ControlFromData(), CompileEkfStub(), GateStub()):
+        for c in (FilterPM(), FilterSM(), FilterMakeReading(), ControlFromData(), CompileEkfStub(), GateStub(), ClampStub()):
             I.contracts[c.key] = c
         install_np(I)
         # S = H P H^T + Q is positive definite for the exported filter (C05 + Lean/Mathlib): nu^T S^-1 nu >= 0 for every recorded pair
         kq, zq, xq, Pq = z3.Const("qk", Str), z3.Const("qz", Mat), z3.Const("qx", Mat), z3.Const("qP", Mat)
         P.definitions.add("S positive definite => nu^T S^-1 nu >= 0 (Lean/Mathlib)")
         P.facts.append(z3.ForAll([kq, zq, xq, Pq], nis_f(inn_f(kq, zq, xq, Pq), mat_inv(spu_f(kq, zq, xq, Pq))) >= 0, patterns=[inn_f(kq, zq, xq, Pq)]))
-        return Call([W.adapter, W.X], {}, W=W, old=dict(W.adapter.fields))
+        return Call([W.adapter, W.X], ({"include_states": True} if self.include_states else {}), W=W, old=dict(W.adapter.fields))
 
     def post(self, I, call, outcome):
         P, pre, W = I.path, self.prefix, call.W
@@ -342,6 +378,21 @@ class Transform(Contract):
             P.oblige(f"{pre}.no_exception_for_matching_width", z3.BoolVal(False), note=f"raises {outcome[1]}")
             return
         rv = outcome[1]
+        if self.include_states:
+            triple = isinstance(rv, tuple) and len(rv) == 3
+            P.oblige(f"{pre}.returns_innovations_states_covariances", z3.BoolVal(triple))
+            if not triple:
+                return
+            for nm, arr, spec in (("states", rv[1], W.run_x), ("covariances", rv[2], W.run_P)):
+                good_arr = isinstance(arr, Arr2D)
+                P.oblige(f"{pre}.{nm}.is_array", z3.BoolVal(good_arr))
+                if good_arr:
+                    i2 = z3.Int("est_any")
+                    P.define(W.unfold(i2 - 1), "run unfolding (recursive spec function)")
+                    el = arr.rows.at(i2)
+                    P.oblige(f"{pre}.{nm}.one_per_row_plus_the_initial", arr.rows.len_z() == W.n + 1)
+                    P.oblige(f"{pre}.{nm}.estimate_after_i_rows", z3.Implies(z3.And(i2 >= 0, i2 <= W.n), el.term == spec(i2)) if isinstance(el, EstObj) else z3.BoolVal(False), theory="euf")
+            rv = rv[0]
         ok = isinstance(rv, Arr2D)
         P.oblige(f"{pre}.returns_array", z3.BoolVal(ok))
         if ok:
